@@ -78,6 +78,10 @@ class SnapIds:
         return "self.temporal_snapshots_ids()"
 
 
+class ArbitraryIds:
+    """Snapshot ids in an order that is not the sorted one (insertion order of the dict)."""
+
+
 class Snapshots:
     def __repr__(self):
         return "self.snapshots"
@@ -267,9 +271,10 @@ class GraphWorld:
                 return Const(bool(self.cfg["removal"]))
             if attr == "directed":
                 return Const(bool(self.directed))
-            if attr in ("adjlist_inner_dict_factory", "edge_attr_dict_factory", "adjlist_outer_dict_factory",
-                        "node_attr_dict_factory"):
-                return BoundMethod(obj, attr)
+            if attr in self.__dict__.get("aux_attrs", {}):
+                return self.aux_attrs[attr]
+            if attr.startswith("_") and not attr.startswith("__") and attr not in self.methods:
+                return Opaque("self." + attr)
             return BoundMethod(obj, attr)
         if isinstance(obj, (TTE, AdjRow, TTEDict, Snapshots, AdjMap, NodeMap)):
             return BoundMethod(obj, attr)
@@ -278,6 +283,12 @@ class GraphWorld:
         raise Unsupported(node, "attribute %s of %r" % (attr, obj))
 
     def store_attr(self, ip, obj, attr, v, node):
+        if isinstance(obj, SelfV) and attr not in ATTR_STORE[True] and attr not in ("_node", "time_to_edge", "snapshots",
+                                                                                 "edge_removal", "directed"):
+            # an auxiliary attribute (a cache, a flag): recorded as a state write, value remembered
+            self.effect(("self_attr_store", attr), node)
+            self.__dict__.setdefault("aux_attrs", {})[attr] = v
+            return
         raise Unsupported(node, "attribute store %r.%s" % (obj, attr))
 
     def contains(self, ip, container, x, node):
@@ -345,6 +356,15 @@ class GraphWorld:
             if not self.node_exists(key.role):
                 raise AbstractRaise("KeyError", node)
             return Opaque("node attributes")
+        if isinstance(obj, SnapIds) and isinstance(key, Const) and key.v in (0, -1):
+            sym = "M" if key.v == -1 else "m"
+            if not self.ot.has(sym):
+                raise Unsupported(node, "extreme snapshot id not modelled in this world")
+            return Int(sym)
+        if isinstance(obj, (ArbitraryIds,)) or (isinstance(obj, SnapIds) and not isinstance(key, Const)):
+            if not self.ot.has("K"):
+                raise Unsupported(node, "an arbitrary snapshot id is not modelled in this world")
+            return Int("K")
         if isinstance(obj, Snapshots):
             if not self.snap_contains(key, node):
                 if self.cfg.get("snap_kind", "dict") == "defaultdict(int)":
@@ -552,6 +572,9 @@ class GraphWorld:
     def resolve_name(self, ip, name, node):
         return None
 
+    def concretise_iter(self, ip, it, node):
+        return None
+
     def exec_special_for(self, ip, st, it, env):
         raise Unsupported(st, "iteration over %r" % (it,))
 
@@ -586,16 +609,24 @@ class GraphWorld:
             raise Unsupported(node, "length of a timeline of unknown size compared with %d" % c)
         return None
 
+    def call_builtin(self, ip, name, args, kwargs, node):
+        if name in ("reversed", "iter", "list", "tuple") and len(args) == 1 and isinstance(args[0], (Snapshots, SnapIds)):
+            if isinstance(args[0], SnapIds) and name in ("list", "tuple"):
+                return args[0]
+            return ArbitraryIds()
+        if name == "next" and len(args) >= 1 and isinstance(args[0], ArbitraryIds):
+            if not self.ot.has("K"):
+                raise Unsupported(node, "an arbitrary snapshot id is not modelled in this world")
+            return Int("K")
+        return None
+
     def call_minmax(self, ip, name, args, node):
-        if len(args) == 1 and isinstance(args[0], SnapIds):
+        if len(args) == 1 and isinstance(args[0], (SnapIds, Snapshots)):
             # the largest / smallest snapshot id of the graph: symbols M / m of the order type
             sym = "M" if name == "max" else "m"
             if not self.ot.has(sym):
                 raise Unsupported(node, "%s of the snapshot ids is not modelled in this world" % name)
             return Int(sym)
-        return None
-
-    def call_builtin(self, ip, name, args, kwargs, node):
         return None
 
     # -- calls --------------------------------------------------------------------------
